@@ -88,13 +88,17 @@ structure Res where
   tys : List Ty := []
   deriving Inhabited
 
+/-- May an expression of type `t` stand in a position that is `strict` about `any`?
+(`CreateErrorIfContainsAny`; function and option types are exempt.) -/
+def anyOK (strict : Bool) (t : Ty) : Bool :=
+  !(strict && t.hasAny && t.kind != .fn && t.kind != .opt)
+
 /-- Tail of `Analyzer.expression`: a diverging expression counts as a loop exit; a type that
 contains `any` is an error unless the context asked for it. -/
 def wrap (strict : Bool) (r : Res) : Res :=
-  let ex := r.ex || r.ty.isNever
-  if strict && r.ty.hasAny && r.ty.kind != .fn && r.ty.kind != .opt then
-    { errs := r.errs ++ [⟨.implicitAny, .implicitAny⟩], ty := .unknown, ex := ex, cst := true, tys := [.unknown] }
-  else { r with ex := ex }
+  if anyOK strict r.ty then { r with ex := r.ex || r.ty.isNever }
+  else { errs := r.errs ++ [⟨.implicitAny, .implicitAny⟩], ty := .unknown, ex := r.ex || r.ty.isNever, cst := true,
+         tys := [.unknown] }
 
 /-! ## `ConvertType` -/
 
@@ -210,6 +214,51 @@ def castAlways (b a : Ty) : Bool :=
   | .obj, .anyobj => true
   | _, _ => false
 
+/-- `e as a` is admitted -/
+def castOK (b a : Ty) : Bool :=
+  castAlways b a || ((typeCheck false b a).isNone && a.kind != .fn)
+
+/-- type of an assignment expression -/
+def assignTy (l r : Ty) : Ty := if l.isNever || r.isNever then .never else .null
+
+/-- type of `if … {then} else {else}` once the branches are compatible: a diverging branch
+does not contribute -/
+def ifElseTy (t e : Ty) : Ty :=
+  if t.isNever then (if e.isNever then .never else e) else if e.isNever then t else e
+
+/-- type of `try {…} catch e {…}` once the branches are compatible -/
+def tryTy (t c : Ty) : Ty :=
+  if t.isNever then (if c.isNever then .never else c) else t
+
+/-- type of a block from its statements (`never`: one of them diverges) and its value -/
+def blockTy (never : Bool) (t : Ty) : Ty := if never then .never else t
+
+/-- type of a `loop` statement: it diverges unless its body may leave it -/
+def loopTy (exits : Bool) : Ty := if exits then .null else .never
+
+/-- the parameter type an argument is checked against -/
+def argParam (ps : List Ty) (rest : Option Ty) : Ty :=
+  match ps with
+  | p :: _ => p
+  | [] => rest.getD .unknown
+
+/-- result type of a `match` after one more arm of type `a`: the first arm that yields a
+value fixes it, later arms must be compatible with it (`none`: they are not) -/
+def armJoin (rt a : Ty) : Option Ty :=
+  if rt.isUnknown || rt.isNever then some a
+  else if (typeCheck true a rt).isNone then some rt else none
+
+/-- type of a `match` from the joined arm type: without a default arm it falls through with
+`null` when every arm diverges or there is no arm (repair A5) -/
+def matchTy (hasDefault : Bool) (noArms : Bool) (rt : Ty) : Ty :=
+  if !hasDefault && (rt.isNever || noArms) then .null else rt
+
+/-- a loop body must not produce a value -/
+def loopBodyOK (t : Ty) : Bool :=
+  match t.kind with
+  | .unknown | .never | .null => true
+  | _ => false
+
 def tcErr (allowFn : Bool) (got exp : Ty) (rule : Rule) : List Err :=
   match typeCheck allowFn got exp with
   | some m => [⟨m, rule⟩]
@@ -315,9 +364,7 @@ def letRule (Γ : Ctx) (name : String) (ann : Option PTy) (e : Res) (isGlobal : 
   { errs := e.errs ++ e1 ++ e2 ++ e3, ty := .null, ex := e.ex, tys := varTy :: e.tys, vars := (name, varTy) :: Γ.vars }
 
 def loopBodyErr (t : Ty) : List Err :=
-  match t.kind with
-  | .unknown | .never | .null => []
-  | _ => [⟨.loopBody, .loopBody⟩]
+  if loopBodyOK t then [] else [⟨.loopBody, .loopBody⟩]
 
 mutual
 /-- `Analyzer.expression` -/
@@ -377,7 +424,7 @@ def checkExpr (Γ : Ctx) (strict : Bool) : PExpr → Res
   | .assign op l r =>
     let a := checkExpr Γ true l
     let b := checkExpr Γ true r
-    let t : Ty := if a.ty.isNever || b.ty.isNever then .never else .null
+    let t : Ty := assignTy a.ty b.ty
     let e1 := tcErr false b.ty a.ty .assignMismatch
     let e2 : List Err := if assignOk op a.ty || !e1.isEmpty then [] else [⟨.assignOperand, .operatorNotAdmitted⟩]
     wrap strict { errs := a.errs ++ b.errs ++ e1 ++ e2, ty := t, ex := a.ex || b.ex, cst := false, tys := t :: (a.tys ++ b.tys) }
@@ -448,9 +495,9 @@ def checkExpr (Γ : Ctx) (strict : Bool) : PExpr → Res
     let b := checkExpr Γ false e
     let c := convertType true t
     let own : List Err :=
-      if castAlways b.ty c.2 then []
+      if castOK b.ty c.2 then []
       else if (typeCheck false b.ty c.2).isSome then [⟨.impossibleCast, .impossibleCast⟩]
-      else if c.2.kind == .fn then [⟨.castToFunction, .impossibleCast⟩] else []
+      else [⟨.castToFunction, .impossibleCast⟩]
     wrap strict { errs := b.errs ++ c.1 ++ own, ty := c.2, ex := b.ex, cst := b.cst, tys := c.2 :: b.tys }
   | .blk b =>
     wrap strict (checkBlock Γ b)
@@ -460,10 +507,7 @@ def checkExpr (Γ : Ctx) (strict : Bool) : PExpr → Res
     let rt := checkBlock Γ t
     let re := checkBlock Γ e
     let eb := tcErr true re.ty rt.ty .branchMismatch
-    let ty : Ty :=
-      if !eb.isEmpty then .unknown
-      else if rt.ty.isNever then (if re.ty.isNever then .never else re.ty)
-      else if re.ty.isNever then rt.ty else re.ty
+    let ty : Ty := if !eb.isEmpty then .unknown else ifElseTy rt.ty re.ty
     wrap strict { errs := rc.errs ++ ec ++ rt.errs ++ re.errs ++ eb, ty := ty, ex := rc.ex || rt.ex || re.ex, cst := false,
                   tys := ty :: (rc.tys ++ rt.tys ++ re.tys) }
   | .ifThen c t =>
@@ -477,8 +521,7 @@ def checkExpr (Γ : Ctx) (strict : Bool) : PExpr → Res
   | .matchE c arms =>
     let rc := checkExpr Γ true c
     let r := checkArms Γ rc.ty {} arms
-    let rt : Ty :=
-      if r.st.dflt.isNone && !r.st.hadErr && (r.st.rt.isNever || arms.isEmpty) then .null else r.st.rt
+    let rt : Ty := if r.st.hadErr then r.st.rt else matchTy r.st.dflt.isSome arms.isEmpty r.st.rt
     let em : List Err :=
       if r.st.dflt.isNone && (typeCheck true .null rt).isSome then [⟨.missingDefault, .missingDefault⟩] else []
     wrap strict { errs := rc.errs ++ r.errs ++ em, ty := rt, ex := rc.ex || r.ex, cst := false,
@@ -487,9 +530,7 @@ def checkExpr (Γ : Ctx) (strict : Bool) : PExpr → Res
     let rt := checkBlock Γ t
     let rc := checkBlock (Γ.bind name errorTy) c
     let eb := tcErr true rc.ty rt.ty .branchMismatch
-    let ty : Ty :=
-      if !eb.isEmpty then .unknown
-      else if rt.ty.isNever then (if rc.ty.isNever then .never else rc.ty) else rt.ty
+    let ty : Ty := if !eb.isEmpty then .unknown else tryTy rt.ty rc.ty
     wrap strict { errs := rt.errs ++ rc.errs ++ eb, ty := ty, ex := rt.ex || rc.ex, cst := false,
                   tys := ty :: (rt.tys ++ rc.tys) }
 /-- `listLiteralExpression`: the element type is the type of the first value -/
@@ -523,11 +564,8 @@ def checkArgs (Γ : Ctx) (ps : List Ty) (rest : Option Ty) : PExprs → ArgsRes
   | .nil => {}
   | .cons a as =>
     let r := checkExpr Γ true a
-    let pty : Ty := match ps with
-      | p :: _ => p
-      | [] => rest.getD .unknown
     let own : List Err :=
-      if r.ty.kind == .null then [⟨.nullArgument, .nullArgument⟩] else tcErr true r.ty pty .argMismatch
+      if r.ty.kind == .null then [⟨.nullArgument, .nullArgument⟩] else tcErr true r.ty (argParam ps rest) .argMismatch
     let rr := checkArgs Γ ps.tail rest as
     { errs := r.errs ++ own ++ rr.errs, ex := r.ex || rr.ex, tys := (if own.isEmpty then r.tys else []) ++ rr.tys }
 /-- the arms of `matchExpression` (after repair A5) -/
@@ -536,11 +574,15 @@ def checkArms (Γ : Ctx) (ctl : Ty) (st : MSt) : PArms → ArmsRes
   | .cons lits act rest =>
     let a := checkExpr Γ true act
     let (st1, e1) : MSt × List Err :=
-      if !st.hadErr && (st.rt.isUnknown || st.rt.isNever) then ({ st with rt := a.ty }, [])
-      else
+      if st.hadErr then
+        -- after a mismatch the result type is frozen; later arms are still compared with it
         match typeCheck true a.ty st.rt with
-        | some m => ({ st with hadErr := true }, [⟨m, .branchMismatch⟩])
+        | some m => (st, [⟨m, .branchMismatch⟩])
         | none => (st, [])
+      else
+        match armJoin st.rt a.ty with
+        | some t => ({ st with rt := t }, [])
+        | none => ({ st with hadErr := true }, tcErr true a.ty st.rt .branchMismatch)
     if lits.hasDefault then
       -- the action of a default arm is analysed a second time
       let r := checkArms Γ ctl { st1 with dflt := some a.tys } rest
@@ -579,7 +621,7 @@ def checkStmt (Γ : Ctx) : PStmt → StmtRes
     { errs := if Γ.inLoop then [] else [⟨.continueOutsideLoop, .continueOutsideLoop⟩], ty := .never, vars := Γ.vars }
   | .loopS b =>
     let r := checkBlock { Γ with inLoop := true } b
-    { errs := r.errs ++ loopBodyErr r.ty, ty := if r.ex then .null else .never, ex := false, tys := r.tys, vars := Γ.vars }
+    { errs := r.errs ++ loopBodyErr r.ty, ty := loopTy r.ex, ex := false, tys := r.tys, vars := Γ.vars }
   | .whileS c b =>
     let rc := checkExpr Γ true c
     let ec := tcErr true rc.ty .bool .conditionNotBool
@@ -607,12 +649,12 @@ def checkBlock (Γ : Ctx) : PBlock → Res
   | .mk ss e =>
     let r := checkStmts Γ ss
     let t := checkExpr { Γ with vars := r.vars } true e
-    let ty : Ty := if r.never then .never else t.ty
+    let ty : Ty := blockTy r.never t.ty
     { errs := r.errs ++ t.errs, ty := ty, ex := r.ex || t.ex,
       cst := (match ss with | .nil => t.cst | _ => false), tys := ty :: (r.tys ++ t.tys) }
   | .mkNoTail ss =>
     let r := checkStmts Γ ss
-    let ty : Ty := if r.never then .never else .null
+    let ty : Ty := blockTy r.never .null
     { errs := r.errs, ty := ty, ex := r.ex, cst := false, tys := ty :: r.tys }
 end
 
